@@ -155,6 +155,20 @@ class NetSession:
         from circuitpython_nrf24l01.network.structs import RF24NetworkHeader, RF24NetworkFrame
 
         m = t[0]
+        if m == "dflt":          # the call with its optional parameters omitted
+            m = t[1]
+            if m == "write":
+                frame = RF24NetworkFrame(RF24NetworkHeader(int(t[2]), int(t[3])), unhex(t[4]))
+                return f"{sb(node.write(frame))} frame={show_frame(frame)}"
+            if m == "multicast":
+                return sb(node.multicast(unhex(t[2]), int(t[3])))
+            if m == "check_connection":
+                return sb(node.check_connection())
+            if m in ("lookup_node_id", "lookup_address"):
+                return str(int(getattr(node, m)()))
+            if m == "release_address":
+                return sb(node.release_address())
+            raise Infra("no default form of " + m)
         if m == "update":
             return str(int(node.update()))
         if m == "read":
